@@ -150,22 +150,15 @@ Definition reportedb (l : list event) (nerr : N) : bool := count is_failure l <=
 (* ---- finish outcome: the finish function receives the outcome of its phase.
         Outcome sizes that the request class determines: ---- *)
 
-Definition rfails (fb : rbeh) : bool := match fb with ROk => false | _ => true end.
 Definition start_failed (ph : phase) (ev : event) : bool :=
   match ev with EStart _ ph' SRFail => phase_eqb ph' ph | _ => false end.
 
-(* the fields that run: up to the first fatal one *)
-Fixpoint executed (fields : list rbeh) : list rbeh :=
-  match fields with
-  | [] => []
-  | fb :: r => fb :: if is_fatal fb then [] else executed r
-  end.
-
-(* the request's own errors when it reaches execution *)
+(* the request's own errors when it reaches execution: one per failed
+   field (resolver or completion of its value), one per deferred value that fails when forced *)
 Definition class_errors (c : cls) : N :=
   match c with
   | CVarErr => 1
-  | CExec fields => N.of_nat (length (filter rfails (executed fields)))
+  | CExec _ _ => N.of_nat (length (filter (fun st : step => rerrs (snd st)) (sched c))) + thunk_fails c
   | _ => 0
   end.
 
@@ -190,10 +183,11 @@ Definition outcome_ok (c : cls) (l : list event) (ev : event) : bool :=
     if existsb (start_failed PValid) l then n =? count (start_failed PValid) l
     else n =? match c with CInvalid m => m + 1 | _ => 0 end
   | EFinish _ (PResolve k) n _ =>
-    (* failed iff the k-th resolver failed *)
-    match c with
-    | CExec fields => n =? (if rfails (nth (N.to_nat k) fields ROk) then 1 else 0)
-    | _ => false
+    (* the k-th notification is about the k-th resolver call: its field and
+       whether it failed (rout) *)
+    match nth_error (sched c) (N.to_nat k) with
+    | Some st => n =? rout st
+    | None => false
     end
   | EFinish _ PExec n _ =>
     (* the result: one error per hook that failed so far, plus the request's
@@ -203,3 +197,8 @@ Definition outcome_ok (c : cls) (l : list event) (ev : event) : bool :=
   | _ => true
   end.
 Definition outcomesb (c : cls) (l : list event) : bool := forallb (outcome_ok c l) l.
+
+(* ---- the whole Spec applied to an observed run: request class, event log,
+        len(Result.Errors) ---- *)
+Definition spec_ok (c : cls) (log : list event) (nerr : N) : bool :=
+  balancedb log && nestedb log && orderedb log && stopsb log && reportedb log nerr && outcomesb c log.
